@@ -444,6 +444,27 @@ def wrap_cond(ctx: Ctx, chk) -> None:
         raise AnalysisError(f"WRAP-COND: the copies of the version query are guarded differently: {sorted(sigs)}")
     guards = guard_sets[0]
     cond = guards[0][0] if guards else None
+    # the condition looks at the state *after* the message was handled (the statement: "once a message has been handled
+    # and the version is still unknown"): a local that sampled the version before the wrapped handler ran is stale
+    order_ = {id(x): i_ for i_, x in enumerate(ast.walk(w.node))}
+    wrapped_ = ctx.I.wrapped_param_names(I.wrapper_of(ctx.func(VWRAP)))
+    wcalls_ = [x for x in ctx.own_nodes(w) if isinstance(x, ast.Call) and isinstance(x.func, ast.Name) and x.func.id in wrapped_]
+    pre_order = []
+
+    def _walk(n_):
+        pre_order.append(n_)
+        for ch_ in ast.iter_child_nodes(n_):
+            _walk(ch_)
+
+    _walk(w.node)
+    pos_ = {id(x): i_ for i_, x in enumerate(pre_order)}
+    la_ = ctx.I.local_assigns(w)
+    for a, _pol in guards:
+        for nm_ in [x for x in ast.walk(a) if isinstance(x, ast.Name)]:
+            for v_ in la_.get(nm_.id) or []:
+                if isinstance(v_, ast.expr) and "protocol_version" in norm(v_) and wcalls_ and all(pos_.get(id(v_), 0) < pos_.get(id(c_), 0) for c_ in wcalls_):
+                    chk.instance(rule)
+                    chk.refute(rule, f"{w.fq}::stale-version::{nm_.id}", f"the condition of the version query reads `{nm_.id}`, which sampled `{norm(v_)[:60]}` before the wrapped handler ran: a message whose handling makes the version known is still followed by a query (and the other way round)", ctx.loc(w, v_))
     msg = message_param(w)
     V = "1.4"
     log, ready = _ival(ctx, V, "I_LOG_MESSAGE"), _ival(ctx, V, "I_GATEWAY_READY")
